@@ -1,7 +1,5 @@
 package main
 
-func registerDBModels() {}
 
-func (x *Exec) initGhost(st *State) {}
 
 
